@@ -209,7 +209,7 @@ def run(ctx: core.Run):
     t0 = time.time()
     tables = ctx.regenerate(extract_c01.gen_codec) or {}     # a reshaped source is a broken tie, never exit 2
     ctx.prove(["PsdVerif.Props.C01", *__import__("desc_common").regenerate(ctx), *__import__("payload_common").regenerate(ctx),
-               *__import__("payload3_common").regenerate(ctx)])
+               *__import__("payload3_common").regenerate(ctx), *__import__("typeddoc_common").regenerate(ctx)])
     ctx.trusted_base += [
         "Lean 4.33 kernel; axioms allowed: propext, Classical.choice, Quot.sound (audited per theorem)",
         "Model/Codec.lean, Model/Psd.lean: hand transliteration of utils.py and the skeleton classes "
@@ -495,6 +495,9 @@ def run(ctx: core.Run):
     __import__("payload_common").run(ctx)
     # ---- third batch (Props/C01Payload3.lean): image-resource payloads, adjustments, vector data, filter effects
     __import__("payload3_common").run(ctx)
+    # ---- typed documents (Props/C01Typed.lean): every registered tagged-block class typed, in layer records and at document
+    # level, engine data parsed at read time; everything is in typeddoc_common.py
+    __import__("typeddoc_common").run(ctx)
 
 
 def systematic_payloads(ctx, classes, sink, per_class):
